@@ -46,6 +46,9 @@ theorem exactByteSize : Gen.exactByteSize = FV.exactByteSize := by
 theorem compileSizeComp : Gen.compileSizeComp = FV.compileSizeComp := by
   funext c; simp only [Gen.compileSizeComp, FV.compileSizeComp, formatCmp2, sizeMatching, exactByteSize]
 
+theorem compileTypeList : Gen.compileTypeList = FV.compileTypeList := by
+  funext l; simp only [Gen.compileTypeList, FV.compileTypeList, fileTypeOctal]; rfl
+
 theorem joinWith_nil : ∀ (ts : List Text), joinWith [] ts = ts.flatten
   | [] => rfl
   | [x] => by simp [joinWith]
@@ -92,7 +95,7 @@ theorem compileFormat : Gen.compileFormat = FV.compileFormat := by
     `-xattr-match`) refer to the model and are pinned by their token text. -/
 theorem compileTest : Gen.compileTest = FV.compileTest := by
   funext clk t st
-  cases t <;> first | rfl | (simp only [Gen.compileTest, schemeEscape, compileSizeComp]; rfl)
+  cases t <;> first | rfl | (simp only [Gen.compileTest, schemeEscape, compileSizeComp, compileTypeList]; rfl)
 
 
 /-- `impl TargetScheme for Action`: 9 arms read from the source (constant texts, which printer is
